@@ -693,4 +693,207 @@ def recompute (h : Hash) : Env → Digest
 theorem wf_recompute {h : Hash} {e : Env} (hw : WF h e) : e.digest = recompute h e := by
   cases e <;> simp_all [recompute, Env.digest]
 
+/-! ### success of operations -/
+
+theorem Res.isOk_iff {α} {r : Res α} : r.isOk = true ↔ ∃ x, r = .ok x := by
+  cases r <;> simp [Res.isOk]
+
+/-! ### general success lemmas (arbitrary hash) -/
+section
+variable (h : Hash)
+
+theorem addAssertionEnvelope_isOk {e a : Env} (hs : a.slotOk = true) :
+    ∃ r, addAssertionEnvelope h e a = .ok r := by
+  unfold addAssertionEnvelope
+  simp only [hs, Bool.not_true, Bool.false_eq_true, ↓reduceIte]
+  split
+  · split
+    · exact ⟨_, rfl⟩
+    · exact ⟨_, (newNodeUnchecked_ok h).2 ⟨by simp, rfl⟩⟩
+  · exact ⟨_, (newNodeUnchecked_ok h).2 ⟨by simp, rfl⟩⟩
+
+theorem removeAssertion_isOk (e t : Env) : ∃ r, removeAssertion h e t = .ok r := by
+  simp only [removeAssertion]
+  split
+  · split
+    · exact ⟨_, rfl⟩
+    · rename_i hne
+      exact ⟨_, (newNodeUnchecked_ok h).2 ⟨by simpa using hne, rfl⟩⟩
+  · exact ⟨_, rfl⟩
+
+theorem replaceAssertion_isOk (e a : Env) {b : Env} (hs : b.slotOk = true) :
+    ∃ r, replaceAssertion h e a b = .ok r := by
+  obtain ⟨e', he'⟩ := removeAssertion_isOk h e a
+  obtain ⟨r, hr⟩ := addAssertionEnvelope_isOk h (e := e') hs
+  exact ⟨r, by simp [replaceAssertion, he', Res.bind, hr]⟩
+
+theorem addAll_isOk (as : List Env) : ∀ (e : Env), (∀ a ∈ as, a.slotOk = true) →
+    ∃ r, addAll h e as = .ok r := by
+  unfold addAll
+  induction as with
+  | nil => intro e _; exact ⟨e, rfl⟩
+  | cons a as ih =>
+    intro e hs
+    obtain ⟨x, hx⟩ := addAssertionEnvelope_isOk h (e := e) (hs a (by simp))
+    obtain ⟨r, hr⟩ := ih x (fun b hb => hs b (by simp [hb]))
+    exact ⟨r, by simpa [List.foldl_cons, Res.bind, hx] using hr⟩
+
+theorem replaceSubject_isOk_aux (as : List Env) : ∀ (s : Env), (∀ a ∈ as, a.slotOk = true) →
+    ∃ r, as.foldl (fun (acc : Res Env) a =>
+      acc.bind fun x =>
+        match addAssertionEnvelope h x a with
+        | .ok y => Res.ok y
+        | .err _ => Res.panic "assertions.rs:replace_subject:unwrap"
+        | .panic p => Res.panic p) (Res.ok s) = Res.ok r := by
+  induction as with
+  | nil => intro s _; exact ⟨s, rfl⟩
+  | cons a as ih =>
+    intro s hs
+    obtain ⟨x, hx⟩ := addAssertionEnvelope_isOk h (e := s) (hs a (by simp))
+    obtain ⟨r, hr⟩ := ih x (fun b hb => hs b (by simp [hb]))
+    exact ⟨r, by simpa [List.foldl_cons, Res.bind, hx] using hr⟩
+
+theorem replaceSubject_isOk {e : Env} (s : Env) (hs : ∀ a ∈ e.assertions, a.slotOk = true) :
+    ∃ r, replaceSubject h e s = .ok r := replaceSubject_isOk_aux h e.assertions s hs
+
+end
+
+theorem encryptSubject_node_isOk (h : Hash) (A : Aead) {key nonce : Bytes} {s : Env} {as : List Env}
+    {d : Digest} (h2 : s.isEncrypted = false)
+    (h1 : (encryptWithDigest A key nonce (encode s) s.digest).optDigest = some s.digest)
+    (hasc : AscDigests as) (hne : as ≠ []) (hd : d = h.ofDigests (s.digest :: as.map Env.digest)) :
+    ∃ r, encryptSubject h A key nonce (.node s as d) = .ok r := by
+  have hn : newNodeUnchecked h (.encrypted (encryptWithDigest A key nonce (encode s) s.digest) s.digest) as
+      = .ok (mkNode h (.encrypted (encryptWithDigest A key nonce (encode s) s.digest) s.digest) as) :=
+    (newNodeUnchecked_ok h).2 ⟨hne, rfl⟩
+  unfold encryptSubject
+  simp only [h2, Bool.false_eq_true, ↓reduceIte, newEncryptedUnwrap, h1, hn]
+  rw [mkNode_of_asc h hasc]
+  have e1 : ∀ (s : Env) (as : List Env) (d : Digest), (Env.node s as d).digest = d := fun _ _ _ => rfl
+  have e2 : ∀ (m : EncMsg) (d : Digest), (Env.encrypted m d).digest = d := fun _ _ => rfl
+  simp only [e1, e2, ← hd, beq_self_eq_true, ↓reduceIte]
+  exact ⟨_, rfl⟩
+
+/-! ### toy instances and sample envelopes for the satisfiability examples -/
+
+/-- a toy hash with 32-byte values that the kernel can evaluate -/
+def toyHash : Hash := ⟨fun b => ⟨(b.foldl (fun acc x => acc * 31 + x.toNat + 1) 7) % 2 ^ 256⟩⟩
+/-- identity "cipher" -/
+def idAead : Aead := ⟨fun _ _ pt _ => (pt, []), fun _ _ ct _ _ => some ct⟩
+/-- identity "compressor" -/
+def idDeflate : Deflate := ⟨id, some, fun _ => 0⟩
+
+theorem toyHash_valid : ∀ b, (toyHash.H b).Valid := fun _ => Nat.mod_lt _ (by decide)
+
+def sSubj : Env := newLeaf toyHash (.text [0x62])
+def sA1 : Env := newAssertion toyHash (newKnownValue toyHash 1) (newLeaf toyHash (.uint 10))
+def sA2 : Env := newAssertion toyHash (newLeaf toyHash (.text [0x61])) (newLeaf toyHash (.uint 20))
+def sA3 : Env := newAssertion toyHash (newKnownValue toyHash 3) (newWrapped toyHash sA1)
+/-- a node with two assertions, listed in ascending digest order -/
+def sNode : Env :=
+  .node sSubj [sA2, sA1] (toyHash.ofDigests (sSubj.digest :: [sA2, sA1].map Env.digest))
+
+theorem sSubj_inv : Inv toyHash sSubj := by simp [Inv, sSubj, newLeaf]
+theorem sA1_inv : Inv toyHash sA1 := by simp [Inv, sA1, newAssertion, newLeaf, newKnownValue]
+theorem sA2_inv : Inv toyHash sA2 := by simp [Inv, sA2, newAssertion, newLeaf]
+theorem sA3_inv : Inv toyHash sA3 := by
+  have := sA1_inv
+  simp [Inv, sA3, newAssertion, newWrapped, newKnownValue, this.1, this.2]
+theorem sA_slotOk : sA1.slotOk = true ∧ sA2.slotOk = true ∧ sA3.slotOk = true := by
+  simp [sA1, sA2, sA3, newAssertion]
+theorem sNode_asc : AscDigests [sA2, sA1] := by
+  have : sA2.digest.val < sA1.digest.val := by decide +kernel
+  simp [AscDigests, this]
+theorem sA3_fresh : ∀ x ∈ [sA2, sA1], x.digest ≠ sA3.digest := by
+  have h1 : sA2.digest ≠ sA3.digest := by decide +kernel
+  have h2 : sA1.digest ≠ sA3.digest := by decide +kernel
+  simp [h1, h2]
+theorem sNode_eq_mkNode : sNode = mkNode toyHash sSubj [sA2, sA1] := (mkNode_of_asc toyHash sNode_asc).symm
+theorem sNode_inv : Inv toyHash sNode := by
+  have h1 := sA1_inv; have h2 := sA2_inv; have h0 := sSubj_inv
+  have hs := sA_slotOk
+  refine ⟨?_, ?_⟩
+  · simp [sNode, h1.1, h2.1, h0.1]
+  · simp [sNode, h1.2, h2.2, h0.2, sNode_asc, hs]
+
+/-- the sample node with its subject compressed -/
+def sNodeC : Env :=
+  .node (.compressed (compressedOf idDeflate (encode sSubj)) sSubj.digest) [sA2, sA1] sNode.digest
+/-- `sA3` encrypted as a whole element -/
+def sEnc : Env :=
+  .encrypted (encryptWithDigest idAead [1] [2] (encode sA3) sA3.digest) sA3.digest
+/-- `sA1` wrapped and encrypted (`encrypt`) -/
+def sEncW : Env :=
+  .encrypted (encryptWithDigest idAead [1] [2] (encode (wrap toyHash sA1)) (wrap toyHash sA1).digest)
+    (wrap toyHash sA1).digest
+def sComp : Env := .compressed (compressedOf idDeflate (encode sA3)) sA3.digest
+/-- an encrypted message in the exact shape the decoder accepts -/
+def sMsg : EncMsg :=
+  { ciphertext := encode sA3, nonce := List.replicate 12 0, auth := List.replicate 16 0,
+    aad := (digestCbor sA3.digest).enc }
+def sTarget : Digest → Bool := fun d => d == sA1.digest
+def sEncAct : Action := .encrypt [1] (fun _ => [2])
+
+theorem sNodeC_inv : Inv toyHash sNodeC := by
+  have h1 := sA1_inv; have h2 := sA2_inv
+  have hs := sA_slotOk
+  have hv : sSubj.digest.Valid := toyHash_valid _
+  refine ⟨?_, ?_⟩
+  · simp [sNodeC, sNode, h1.1, h2.1, Env.digest]
+  · simp [sNodeC, h1.2, h2.2, sNode_asc, hs, hv]
+theorem sEnc_inv : Inv toyHash sEnc := by
+  have h1 : (encryptWithDigest idAead [1] [2] (encode sA3) sA3.digest).optDigest = some sA3.digest := by
+    decide +kernel
+  have hv : sA3.digest.Valid := toyHash_valid _
+  simp [Inv, sEnc, h1, hv]
+theorem sEncW_inv : Inv toyHash sEncW := by
+  have h1 : (encryptWithDigest idAead [1] [2] (encode (wrap toyHash sA1)) (wrap toyHash sA1).digest).optDigest
+      = some (wrap toyHash sA1).digest := by decide +kernel
+  have hv : (wrap toyHash sA1).digest.Valid := toyHash_valid _
+  simp [Inv, sEncW, h1, hv]
+theorem sComp_inv : Inv toyHash sComp := by
+  have hv : sA3.digest.Valid := toyHash_valid _
+  simp [Inv, sComp, hv]
+
+theorem sElideSet_ok :
+    (∃ r, elideSet toyHash idAead idDeflate sTarget false .elide sNode = .ok r) ∧
+    (∃ r, elideSet toyHash idAead idDeflate sTarget false .compress sNode = .ok r) ∧
+    (∃ r, elideSet toyHash idAead idDeflate sTarget false sEncAct sNode = .ok r) ∧
+    (∃ r, elideSet toyHash idAead idDeflate sTarget true .elide sNode = .ok r) := by
+  refine ⟨Res.isOk_iff.1 ?_, Res.isOk_iff.1 ?_, Res.isOk_iff.1 ?_, Res.isOk_iff.1 ?_⟩ <;> decide +kernel
+theorem sEncryptSubject_ok : ∃ r, encryptSubject toyHash idAead [1] [2] sNode = .ok r := by
+  have h1 : (encryptWithDigest idAead [1] [2] (encode sSubj) sSubj.digest).optDigest
+      = some sSubj.digest := by decide +kernel
+  have h2 : sSubj.isEncrypted = false := by simp [sSubj, newLeaf, isEncrypted]
+  unfold sNode
+  exact encryptSubject_node_isOk toyHash idAead h2 h1 sNode_asc (by simp) rfl
+
+theorem sEncryptWhole_ok : ∃ r, encryptWhole toyHash idAead [1] [2] sNode = .ok r :=
+  Res.isOk_iff.1 (by decide +kernel)
+theorem sDecodeParts_ok :
+    (∃ e, decodeEncrypted (encMsgCbor sMsg) = .ok e) ∧
+    (∃ e, decodeCompressed (compMsgCbor (compressedOf idDeflate (encode sA3)) sA3.digest) = .ok e) ∧
+    (∃ e, envOfCbor toyHash (cborOf sA3) = .ok e) ∧
+    (∃ e, envOfTaggedCbor toyHash (taggedCborOf sA3) = .ok e) := by
+  refine ⟨Res.isOk_iff.1 ?_, Res.isOk_iff.1 ?_, Res.isOk_iff.1 ?_, Res.isOk_iff.1 ?_⟩ <;> decide +kernel
+theorem sDecode_ok : ∃ r, decode toyHash (encode sA3) = .ok r := Res.isOk_iff.1 (by decide +kernel)
+theorem sUncompress_ok : ∃ r, uncompress toyHash idDeflate sComp = .ok r :=
+  Res.isOk_iff.1 (by decide +kernel)
+theorem sUncompressSubject_ok : ∃ r, uncompressSubject toyHash idDeflate sNodeC = .ok r :=
+  Res.isOk_iff.1 (by decide +kernel)
+theorem sDecryptSubject_ok : ∃ r, decryptSubject toyHash idAead [1] sEnc = .ok r :=
+  Res.isOk_iff.1 (by decide +kernel)
+theorem sDecryptWhole_ok : ∃ r, decryptWhole toyHash idAead [1] sEncW = .ok r :=
+  Res.isOk_iff.1 (by decide +kernel)
+
+theorem mergeSort_pair_swap (a b : Digest) (hab : b.val < a.val) :
+    [a, b].mergeSort (fun x y => decide (x.val ≤ y.val)) = [b, a] := by
+  have : ¬ a.val ≤ b.val := by omega
+  simp [List.mergeSort, List.MergeSort.Internal.splitInTwo, this]
+
+/-- a node whose cached digest was computed over its assertions in the order given
+(descending) instead of ascending: `WF` but not `Canon` -/
+def sUnsorted : Env :=
+  .node sSubj [sA1, sA2] (toyHash.ofDigests [sSubj.digest, sA1.digest, sA2.digest])
+
 end EnvVerif
